@@ -46,3 +46,25 @@ func (R *Repository) VerifEntryState(id string) (bool, bool) {
 }
 
 func (R *Repository) VerifEntries() int { return len(R.crlRepository) }
+
+// VerifConsistent: representation invariant of the repository that every API operation - and every
+// interleaving of two of them - must re-establish: each registered entry has a loader and a store; an
+// entry that counts as loaded has a store holding a list (meta record present, so a restart would see
+// it as loaded too); an entry whose last refresh failed verification kept the result it has to re-check.
+func (R *Repository) VerifConsistent() (bool, string) {
+	for _, e := range R.crlRepository {
+		if e == nil {
+			continue // closed by shutdown
+		}
+		if e.CRLLoader == nil || e.CRLStore == nil || e.entryLock == nil {
+			return false, "an entry without loader, store or lock"
+		}
+		if e.Loaded && e.CRLStore.IsEmpty() {
+			return false, "an entry counts as loaded but its store holds no list"
+		}
+		if e.LastUpdateSignatureVerifyFailed && e.LastUpdateSignature == nil {
+			return false, "signature-failed state without the result to re-check"
+		}
+	}
+	return true, ""
+}
